@@ -65,7 +65,8 @@ def run(ctx):
                 "fact_internal_binds", "fact_policy", "fact_best_practices_conditions", "fact_acceptable_algs_asymmetric",
                 "fact_registered_first_segments", "fact_default_addresses_differ", "fact_auth_types", "configure_auth_sound",
                 "fact_authorized_keys", "authorized_keys_sound", "commented_out_line_is_dead", "text_after_hash_is_ignored",
-                "fact_middleware_stateless", "decision_independent_of_history", "fact_middleware_order"]
+                "fact_middleware_stateless", "decision_independent_of_history", "fact_middleware_order",
+                "fact_middleware_handler_is_a_fresh_closure"]
     for r in required:
         if not any(t.endswith("Props." + r) for t in thms):
             ctx.oblige("thm-present:" + r, False, "theorem missing or its module does not build")
@@ -171,7 +172,7 @@ def http_part(ctx, out):
     seen_sig = set()
     bursts = {}
     n_req = o_bypass = o_401 = o_public = o_abort = o_429 = 0
-    o_cfg = 0
+    o_cfg = n_overlap = o_overlap = 0
     for i, line in enumerate(impl):
         if i >= len(ops) or not ops[i]:
             continue
@@ -183,6 +184,33 @@ def http_part(ctx, out):
                 o_cfg += 1
                 ctx.violation("C04:configure:silently-unauthenticated", f"Configure accepted auth type {typ!r} with authorized_keys '{kf}' without error: "
                               "the internal API would run without (working) authentication", "configure-silently-unauthenticated.jsonl", ops[i])
+            continue
+        if op.get("op") == "overlap":
+            # O7 two requests in flight at the same time: each is answered by its own handler, on its own listener, with its own user
+            n_overlap += 1
+            eng = engines.get(op["eng"], {})
+            for tag, half, txt in (("A", op["ra"], line.split(" | ")[0][2:]), ("B", op["rb"], line.split(" | ")[-1][2:])):
+                mm = re.match(r"^(-?\d+) ran=(\S+) (.*)$", txt)
+                if not mm:
+                    continue
+                ran_id = None if mm.group(2) == "-" else int(mm.group(2))
+                owner = VALID_CREDS.get(half["cred"])
+                what = None
+                if ran_id in internal_ids and owner is None:
+                    what = "handler registered under /internal ran for a request without an acceptable bearer token"
+                elif ran_id in internal_ids and mm.group(3) != "user:" + owner:
+                    what = f"handler under /internal saw {mm.group(3)}, the request's token owner is {owner}"
+                elif half["lis"] == "pub" and eng.get("int") != eng.get("pub") and ran_id in bound_internal_ids:
+                    what = "the public listener answered with a handler bound to the internal interface"
+                elif ran_id is not None and routes[ran_id]["p"].split("/")[1].split(":")[0] not in half["show"]:
+                    what = f"answered by the handler of route {routes[ran_id]['p']}, which the request does not address"
+                if what:
+                    o_overlap += 1
+                    sig = "C04:overlap:handler-of-another-request"
+                    if sig not in seen_sig:
+                        seen_sig.add(sig)
+                        ctx.violation(sig, f"{what}: request {tag} = {half['m']} {half['show']} on {op['eng']}/{half['lis']} with credential '{half['cred']}', "
+                                      f"in flight together with the other request of the pair -> {line}", "overlap-handler-of-another-request.jsonl", ops[i])
             continue
         if op.get("op") != "req":
             continue
@@ -250,9 +278,10 @@ def http_part(ctx, out):
     ctx.oblige("oracle:unknown-auth-type-or-bad-keys-file-is-an-error(impl)", o_cfg == 0, f"{o_cfg} configurations")
     ctx.oblige("oracle:every-request-is-answered(impl)", o_abort == 0, f"{o_abort} aborted connections")
     ctx.oblige("oracle:auth-failures-are-401-not-429(impl)", o_429 == 0, f"{o_429} requests")
+    ctx.oblige("oracle:overlapping-requests-answered-as-if-alone(impl)", o_overlap == 0, f"{o_overlap} of {2 * n_overlap} request halves")
     ctx.oblige("oracle:internal-routes-never-on-public-listener(impl)", o_public == 0, f"{o_public} requests")
 
-    correspondence(ctx, "http", impl, model, bad, ops, o_bypass + o_401 + o_public + o_cfg + o_abort + o_429)
+    correspondence(ctx, "http", impl, model, bad, ops, o_bypass + o_401 + o_public + o_cfg + o_abort + o_429 + o_overlap)
     d = {"requests": n_req, "target_forms": dict(forms), "status": {str(k): v for k, v in sorted(statuses.items())},
          "credential_kinds": dict(creds), "methods": dict(methods), "other_differential_lines": len(impl) - n_req}
     ctx.cov["samples"] = [ops[1][:300] if len(ops) > 1 else "", impl[1][:100] if len(impl) > 1 else ""]
